@@ -8,13 +8,15 @@ NOT_READY = {}
 f = os.path.join(HERE, "tools", "not_claimed.json")
 if os.path.exists(f):
     NOT_READY = json.load(open(f))
+# only properties the lead has reviewed and listed here are claimed
+CLAIMED = json.load(open(os.path.join(HERE, "tools", "claimed.json")))
 checks, na = [], []
 for p in props:
     pid = p["id"]
     try:
         mod = importlib.import_module("vcheck." + pid.lower())
         m = getattr(mod, "MANIFEST")
-        if pid in NOT_READY:
+        if pid in NOT_READY or pid not in CLAIMED:
             raise ImportError
     except (ImportError, AttributeError):
         na.append({"property_id": pid, "reason": NOT_READY.get(pid, "check under construction (not yet claimed); the technique applies, see DESIGN.md section 5")})
